@@ -1,7 +1,7 @@
 (** C03 — the dispatch chain radixsort_CE3 -> CE2 -> CI3 -> CI2 -> multikey_quicksort -> insertion_sort:
     whatever the memory limit selects, the selected sorter meets the contract. *)
 From Coq Require Import List Bool Arith NArith Lia Sorting.Sorted Sorting.Permutation.
-From TLXV Require Import gen.Sizes_C03_gen C03.Model C03.Spec C03.SpecProofs C03.Lemmas C03.Sorters C03.Radix8.
+From TLXV Require Import gen.Sizes_C03_gen C03.Model C03.Spec C03.SpecProofs C03.Lemmas C03.Sorters C03.LcpInsertion C03.Radix8.
 Import ListNotations.
 
 (** the pieces of the development that are assumed rather than proved (each is a statement about one loop of the
@@ -20,10 +20,14 @@ Proof.
   destruct (insertion_sort_ok p l HP) as [P S]. split; [exact P|split; [exact S|reflexivity]].
 Qed.
 
+(** ... and so is the LCP variant: both insertion sorts meet the contract at every depth *)
+Theorem insertion_ok wl : InsertionOK wl.
+Proof. destruct wl; [exact lcp_insertion_ok|exact insertion_nolcp_ok]. Qed.
+
 Section Dispatch.
   Variable sz : sizes.
   Variable wl : bool.
-  Hypothesis ins_ok : InsertionOK wl.
+  Let ins_ok := insertion_ok wl.
   Hypothesis mkqs_ok : MkqsOK sz wl.
   Hypothesis ip_ok : InPlaceOK.
   Hypothesis r16_ok : Radix16OK sz wl.
@@ -95,6 +99,7 @@ Proof.
   - vm_compute. reflexivity.
 Qed.
 
+
 (** * the hypotheses of the theorems are satisfiable by a non-trivial run: 34 NUL-free strings (duplicates, a proper
     prefix, a high byte) go through the CE2 radix step, insertion sort on its buckets and the LCP boundary pass *)
 Definition example_input : list item :=
@@ -111,10 +116,8 @@ Example sort_strings_example :
   end.
 Proof.
   split.
-  - unfold all_nulfree, example_input. rewrite Forall_forall. intros x Hx. apply in_map_iff in Hx.
-    destruct Hx as (i & <- & Hi). apply in_seq in Hi. simpl snd. unfold nulfree.
-    assert (Hm3 : i mod 3 < 3) by (apply Nat.mod_upper_bound; lia).
-    assert (Hm2 : i mod 2 < 2) by (apply Nat.mod_upper_bound; lia).
-    destruct (i mod 5 =? 0); repeat constructor; lia.
+  - unfold all_nulfree, nulfree. vm_compute example_input.
+    repeat (apply Forall_cons; [repeat (apply Forall_cons; [split; [discriminate|reflexivity]|]); apply Forall_nil|]).
+    apply Forall_nil.
   - vm_compute. repeat split; reflexivity.
 Qed.
